@@ -17,6 +17,7 @@ ELEM = "wntr/network/elements.py"
 CTRL = "wntr/network/controls.py"
 HYD = "wntr/sim/hydraulics.py"
 BASE = "wntr/network/base.py"
+MODEL = "wntr/network/model.py"
 
 EXPLANATION = (
     "Formula extraction of leak_constraint (three-branch residual: s*p below zero pressure, smoothing cubic on [0, delta], Cd*A*sqrt(2*9.81*p) "
@@ -65,26 +66,48 @@ def builder_functions(repo):
     return out
 
 
+def _is_none_test(test, name):
+    """True for `<name> is None` (== None), False for `<name> is not None` (!= None), flipped under `not`; None for any other test"""
+    if isinstance(test, ast.UnaryOp) and isinstance(test.op, ast.Not):
+        r = _is_none_test(test.operand, name)
+        return None if r is None else not r
+    if isinstance(test, ast.Compare) and len(test.ops) == 1 and isinstance(test.left, ast.Name) and test.left.id == name \
+            and isinstance(test.comparators[0], ast.Constant) and test.comparators[0].value is None:
+        if isinstance(test.ops[0], (ast.Is, ast.Eq)):
+            return True
+        if isinstance(test.ops[0], (ast.IsNot, ast.NotEq)):
+            return False
+    return None
+
+
 def index_domains(repo):
     """per builder: (defined dicts -> kinds), (default index kinds), [(dict, lineno) subscripted by the index variable]."""
     defs = {}
     uses = []
     for rel, qual, fn in builder_functions(repo):
-        # default index: assignment `index_over = <expr>` under `if index_over is None`
-        default = None
+        # default index set: what a name holds when the builder is called without index_over -- `if index_over is None: x = <expr>`
+        # (or the else branch of `is not None`) and `x = <expr> if index_over is None else index_over` say the same
+        defaults = {}
         for n in walk(fn):
-            if isinstance(n, ast.If) and unparse(n.test) == "index_over is None":
-                for s in n.body:
-                    if isinstance(s, ast.Assign) and dotted(s.targets[0]) == "index_over":
-                        default = kinds_of(unparse(s.value))
+            if isinstance(n, ast.If):
+                pol = _is_none_test(n.test, "index_over")
+                if pol is not None:
+                    for s in (n.body if pol else n.orelse):
+                        if isinstance(s, ast.Assign) and len(s.targets) == 1 and isinstance(s.targets[0], ast.Name):
+                            defaults[s.targets[0].id] = s.value
+            if isinstance(n, ast.Assign) and len(n.targets) == 1 and isinstance(n.targets[0], ast.Name) and isinstance(n.value, ast.IfExp):
+                pol = _is_none_test(n.value.test, "index_over")
+                if pol is not None:
+                    defaults[n.targets[0].id] = n.value.body if pol else n.value.orelse
         loops = [n for n in walk(fn) if isinstance(n, ast.For)]
         for lp in loops:
-            it = unparse(lp.iter)
-            if it == "index_over":
-                kinds = default
+            if isinstance(lp.iter, ast.Name) and lp.iter.id in defaults:
+                kinds = kinds_of(unparse(defaults[lp.iter.id]))
                 var = lp.target.id if isinstance(lp.target, ast.Name) else None
+            elif isinstance(lp.iter, ast.Name):
+                kinds = var = None
             else:
-                kinds = kinds_of(it)
+                kinds = kinds_of(unparse(lp.iter))
                 var = lp.target.elts[0].id if isinstance(lp.target, ast.Tuple) and isinstance(lp.target.elts[0], ast.Name) else (lp.target.id if isinstance(lp.target, ast.Name) else None)
             if kinds is None or var is None:
                 continue
@@ -101,24 +124,68 @@ def index_domains(repo):
     return defs, uses
 
 
+def _single_def(name, fn):
+    """the value of the only assignment to a local name in fn (None when it is bound more than once, or by a loop / with / argument)"""
+    vals = []
+    for x in walk(fn):
+        if isinstance(x, ast.Name) and x.id == name and isinstance(x.ctx, (ast.Store, ast.Del)):
+            par = getattr(x, "_parent", None)
+            if isinstance(par, ast.Assign) and len(par.targets) == 1 and par.targets[0] is x:
+                vals.append(par.value)
+            else:
+                return None
+    if name in [a.arg for a in fn.args.args + fn.args.kwonlyargs]:
+        return None
+    return vals[0] if len(vals) == 1 else None
+
+
+def junction_test(test, fn, depth=0):
+    """True if the test holds exactly for junctions, False if it holds exactly for non-junctions, None if it is about something else.
+    `not`, comparison with a boolean literal and a temporary holding the test are looked through."""
+    if depth > 4:
+        return None
+    if isinstance(test, ast.UnaryOp) and isinstance(test.op, ast.Not):
+        r = junction_test(test.operand, fn, depth + 1)
+        return None if r is None else not r
+    if isinstance(test, ast.Name):
+        d = _single_def(test.id, fn)
+        return junction_test(d, fn, depth + 1) if d is not None else None
+    if isinstance(test, ast.Compare) and len(test.ops) == 1 and isinstance(test.ops[0], (ast.Eq, ast.Is, ast.NotEq, ast.IsNot)):
+        x, y = test.left, test.comparators[0]
+        if isinstance(x, ast.Constant):
+            x, y = y, x
+        if isinstance(y, ast.Constant) and isinstance(y.value, bool):
+            r = junction_test(x, fn, depth + 1)
+            return None if r is None else (r if (isinstance(test.ops[0], (ast.Eq, ast.Is)) == y.value) else not r)
+        if isinstance(y, ast.Constant) and y.value == "Junction" and isinstance(x, ast.Attribute) and x.attr == "node_type":
+            return isinstance(test.ops[0], (ast.Eq, ast.Is))
+        return None
+    if isinstance(test, ast.Call) and unparse(test.func) == "isinstance" and len(test.args) == 2 and not test.keywords:
+        cls_ = test.args[1]
+        if isinstance(cls_, (ast.Name, ast.Attribute)) and unparse(cls_).split(".")[-1] == "Junction":
+            return True
+    return None
+
+
 def junction_guarded(n, fn):
-    """'junction' if the subscript is under the true branch of an `isinstance(<node>, ...Junction)` test, 'other' if under its else branch."""
+    """'junction' if the subscript is evaluated only when an `isinstance(<node>, ...Junction)` test holds, 'other' if only when it fails
+    (branch of an if statement or operand of a conditional expression, the test possibly negated or held in a temporary)."""
     q = n
     while q is not None and q is not fn:
         p = getattr(q, "_parent", None)
-        if isinstance(p, ast.If) and "isinstance(" in unparse(p.test) and "Junction" in unparse(p.test) and not isinstance(p.test, ast.UnaryOp):
-            if q in p.body:
-                return "junction"
-            if q in p.orelse:
-                return "other"
+        if isinstance(p, (ast.If, ast.IfExp)) and q is not p.test:
+            pol = junction_test(p.test, fn)
+            if pol is not None:
+                in_body = (q in p.body) if isinstance(p, ast.If) else (q is p.body)
+                return ("junction" if pol else "other") if in_body else ("other" if pol else "junction")
         q = p
     return None
 
 
 def prop_models(conds, limit=14):
-    """propositional reading of path conditions {test text: truth value}: `not`, `and`, `or` and comparisons with a boolean literal
-    (`A == False`, `A is True`, ...) are interpreted, every other test is an uninterpreted atom (its text).  -> all truth assignments of the
-    atoms under which every condition has its recorded value ([] = the path is infeasible)."""
+    """propositional reading of path conditions {test text: truth value}: `not`, `and`, `or`, comparisons with a boolean literal
+    (`A == False`, `A is True`, ...) and `X is not None` / `X is None` are interpreted, every other test is an uninterpreted atom (its
+    text).  -> all truth assignments of the atoms under which every condition has its recorded value ([] = the path is infeasible)."""
     leaves = []
 
     def build(node):
@@ -138,6 +205,10 @@ def prop_models(conds, limit=14):
                 f = build(x)
                 pos = isinstance(node.ops[0], (ast.Eq, ast.Is)) == y.value
                 return (lambda a: f(a)) if pos else (lambda a: not f(a))
+            if isinstance(y, ast.Constant) and y.value is None:
+                # one atom `X is None` for the four spellings
+                f = build("%s is None" % unparse(x))
+                return (lambda a: f(a)) if isinstance(node.ops[0], (ast.Eq, ast.Is)) else (lambda a: not f(a))
         if isinstance(node, ast.Constant) and isinstance(node.value, bool):
             return lambda a, v=node.value: v
         txt = node if isinstance(node, str) else unparse(node)
@@ -167,10 +238,133 @@ def prop_forced(atom, models):
     return vals.pop() if len(vals) == 1 else None
 
 
-def value_cases(v, conds):
+class UnrollExec(SymExec):
+    """SymExec that also unrolls a `for` whose number of iterations is known although the elements are symbolic: a literal tuple / list, a
+    local bound to one, or `zip(...)` of such.  The merged loop `for t, v in ((a, True), (b, False)): ...` then produces the same events
+    as the statements written out twice."""
+
+    def _known_sequence(self, n, st):
+        """-> list of thunks (one per element) or None"""
+        if isinstance(n, (ast.Tuple, ast.List)):
+            if any(isinstance(x, ast.Starred) for x in n.elts):
+                return None
+            return [(lambda s0, x=x: self.ev(x, s0)) for x in n.elts]
+        if isinstance(n, ast.Name) and isinstance(st.env.get(n.id), (list, tuple)):
+            return [(lambda s0, v=v: v) for v in st.env[n.id]]
+        if isinstance(n, ast.Call) and isinstance(n.func, ast.Name) and n.func.id == "zip" and n.args and not n.keywords and "zip" not in st.env:
+            cols = [self._known_sequence(x, st) for x in n.args]
+            if any(c is None for c in cols):
+                return None
+            return [(lambda s0, row=row: tuple(f(s0) for f in row)) for row in zip(*cols)]
+        return None
+
+    def loop(self, s, st):
+        seq = self._known_sequence(s.iter, st)
+        if seq is None or len(seq) > 12:
+            return SymExec.loop(self, s, st)
+        states = [st]
+        for thunk in seq:
+            nxt = []
+            for s0 in states:
+                if s0.done is True:
+                    nxt.append(s0)
+                    continue
+                s0.done = False
+                self.assign(s.target, thunk(s0), s0, s)
+                nxt.extend(self.block(s.body, [s0]))
+            states = nxt
+        for s0 in states:
+            if s0.done == "loopexit":
+                s0.done = False
+        return states
+
+
+def run_builder_unrolled(repo, rel, qual, test_hook=B.std_test_hook, call_hook=None):
+    """B.run_builder with loops of known length unrolled"""
+    fn = repo.func(rel, qual)
+    ex = UnrollExec(inline=B.inline_table(repo), test_hook=test_hook, call_hook=call_hook)
+    outs = ex.run(fn)
+    if not outs:
+        raise ExtractError("%s: no paths" % qual)
+    return fn, [B.Path(o) for o in outs], ex
+
+
+def str_method_hook(name, n, args, kwargs, st, ex, recv):
+    """case / whitespace methods of a string that is known literally"""
+    if isinstance(recv, str) and isinstance(n.func, ast.Attribute) and n.func.attr in ("upper", "lower", "strip", "casefold") and not args and not kwargs:
+        return getattr(recv, n.func.attr)()
+    return NotImplemented
+
+
+def call_events(o, last):
+    """call events of a path whose callee's last name component is `last`"""
+    return [e for e in o.events if e[0] == "call" and e[2][0] and e[2][0].split(".")[-1] == last]
+
+
+def event_of(o, v):
+    """the call event that produced the value v (SymExec names the result of an uninterpreted call by the call's text)"""
+    if not isinstance(v, Opaque):
+        return None
+    for e in reversed(o.events):
+        if e[0] == "call" and e[1] == v.text:
+            return e
+    return None
+
+
+def bind_call(fn, e):
+    """arguments of a recorded call bound to the parameter names of the callee's definition (self / cls dropped; literal defaults filled in):
+    positional and keyword spellings of the same call give the same dictionary"""
+    if e is None:
+        return {}
+    _, args, kwargs = e[2]
+    params = [a.arg for a in fn.args.args]
+    if params and params[0] in ("self", "cls"):
+        params = params[1:]
+    out = {}
+    dfl = fn.args.defaults
+    for p_, d in zip([a.arg for a in fn.args.args][len(fn.args.args) - len(dfl):], dfl):
+        out[p_] = d.value if isinstance(d, ast.Constant) else Opaque(unparse(d))
+    for p_, a in zip(params, args):
+        out[p_] = a
+    out.update(kwargs)
+    return out
+
+
+def both_entry_hook(txt, node, st):
+    """like the standard builder hook, but `<key> in m.<dict>` is left undecided: the branch that creates the entry and the branch that
+    updates the existing entry are both analysed"""
+    if re.match(r"^\w+ in m\.\w+$", txt):
+        return None
+    return B.std_test_hook(txt, node, st)
+
+
+def entry_values(path, name_re):
+    """values a builder path writes to the entries of the model dictionaries m.<name_re>: `m.d[key] = aml.Param(v)` (created) and
+    `m.d[key].value = v` (updated).  -> [(first group of name_re, key text, v, 'created' | 'updated')]"""
+    out = []
+    for e in path.st.events:
+        if e[0] != "store":
+            continue
+        mk = re.match(r"^m\.%s\[(.+?)\](\.value)?$" % name_re, e[1])
+        if not mk:
+            continue
+        v = e[2]
+        if mk.group(3):
+            out.append((mk.group(1), mk.group(2), v, "updated"))
+            continue
+        ce = event_of(path.st, v)
+        if ce is not None and ce[2][0].split(".")[-1] == "Param":
+            args, kwargs = ce[2][1], ce[2][2]
+            v = args[0] if args else kwargs.get("value", kwargs.get("val"))
+        out.append((mk.group(1), mk.group(2), v, "created"))
+    return out
+
+
+def value_cases(v, conds, raw=False):
     """case analysis of a value computed by SymExec: an undecided conditional expression `a if T else b` is a Piecewise over the boolean
     atom '[T]'.  Every truth assignment of the atoms occurring in the value that the path conditions do not contradict is one case --
-    exactly the paths the equivalent if/else statement would have produced.  -> [(conds extended by the atoms, leaf value)]"""
+    exactly the paths the equivalent if/else statement would have produced.  -> [(conds extended by the atoms, leaf value)]; the leaf is
+    the source text of a symbol / a python number / the text of a compound expression, or with raw=True the sympy expression itself."""
     if isinstance(v, Opaque):
         return [(conds, v.text)]
     if not isinstance(v, sp.Basic):
@@ -191,7 +385,9 @@ def value_cases(v, conds):
         if not feasible:
             continue
         leaf = v.subs({a: (1 if b else 0) for a, b in zip(atoms, bits)})
-        if isinstance(leaf, sp.Symbol):
+        if raw:
+            pass
+        elif isinstance(leaf, sp.Symbol):
             leaf = leaf.name
         elif leaf.is_Integer or leaf == 0:
             leaf = int(leaf)
@@ -287,11 +483,19 @@ def run(repo, chk):
     got_law = False
     for p in paths:
         st = p.stores("m.leak_con[")
-        active = [v for t, v in p.conds if "leak_status" in t]
-        if not st:
-            chk.expect(bool(active) and not active[0], "R-C08-1", "no leak row unless the leak is active and the node connected", loc(fn), found=p.label)
+        if p.st.raised:
             continue
-        guard_ok = any(v and re.search(r"\.leak_status and not .*\._is_isolated$", t) for t, v in p.conds)
+        models = prop_models(dict(p.conds))
+        if not models:
+            continue
+        # may the leak be active on a connected node on this path?  (propositional reading of the tests: nesting, De Morgan, `== False` agree)
+        ls_atoms = sorted({k for m_ in models for k in m_ if re.search(r"\.leak_status$", k)})
+        iso_atoms = sorted({k for m_ in models for k in m_ if re.search(r"\._is_isolated$", k)})
+        can_leak = [m_ for m_ in models if all(m_[k] for k in ls_atoms) and not any(m_[k] for k in iso_atoms)]
+        if not st:
+            chk.expect(bool(ls_atoms) and bool(iso_atoms) and not can_leak, "R-C08-1", "no leak row unless the leak is active and the node connected", loc(fn), found=p.label)
+            continue
+        guard_ok = bool(ls_atoms) and bool(iso_atoms) and len(can_leak) == len(models)
         chk.expect(guard_ok, "R-C08-1", "leak row exists only while leak_status is set and the node is not isolated", loc(fn), found=p.label)
         v = st[-1][1]
         if not (isinstance(v, Constraint) and isinstance(v.expr, CondExpr) and len(v.expr.branches) == 2):
@@ -313,7 +517,13 @@ def run(repo, chk):
                        "orifice law with p = head - elevation", expected=str(leak - refs[i]), found=str(R))
         gref = [P, P - delta]
         for i, (gd, e) in enumerate(brs[:2]):
-            okg = isinstance(gd, Ineq) and gd.lb is None and gd.ub is not None and is_zero((canon(gd.body)[0] - canon(ex.S(gd.ub))[0]).xreplace(ELEV_SUB) - gref[i])
+            # one-sided inequality in the normal form  g <= 0  (body <= ub  or  lb <= body)
+            g_ = None
+            if isinstance(gd, Ineq) and gd.ub is not None and gd.lb is None:
+                g_ = canon(gd.body)[0] - canon(ex.S(gd.ub))[0]
+            elif isinstance(gd, Ineq) and gd.lb is not None and gd.ub is None:
+                g_ = canon(ex.S(gd.lb))[0] - canon(gd.body)[0]
+            okg = g_ is not None and is_zero(g_.xreplace(ELEV_SUB) - gref[i])
             chk.expect(bool(okg), "R-C08-1", "leak branch %d guard is %s <= 0%s" % (i, gref[i], tagj), loc(fn), found=str(gd))
         got_law = True
     chk.expect(got_law, "R-C08-1", "leak law located", loc(fn))
@@ -321,44 +531,91 @@ def run(repo, chk):
     for bn in ("mass_balance_constraint", "pdd_mass_balance_constraint"):
         f_, p_, e_ = B.run_builder(repo, CON, bn + ".build")
         B.check_updaters(chk, "R-C08-3", f_, bn, p_, {"leak_status"}, loc(f_))
-        has = any(any(s_.name == "m.leak_rate[node_name]" for s_ in e_.S(st_[1].expr).free_symbols) for q_ in p_ if q_.has(".leak_status", True)
-                  for st_ in q_.stores("m.") if isinstance(st_[1], Constraint) and not isinstance(st_[1].expr, CondExpr))
-        chk.expect(has, "R-C08-3", "%s contains the leak-rate term while the leak is active" % bn, loc(f_))
+        # the balance row of a node, by case (branch tests and conditional expressions alike): the leak-rate variable of THAT node is a term
+        # of the row exactly while the leak is active
+        n_active, missing, stale = 0, [], []
+        for q_ in p_:
+            if q_.st.raised:
+                continue
+            for t_, v_, ln_ in q_.stores("m."):
+                mk = re.match(r"^m\.\w+\[(.+)\]$", t_)
+                if not (mk and isinstance(v_, Constraint)) or isinstance(v_.expr, CondExpr):
+                    continue
+                want_sym = "m.leak_rate[%s]" % mk.group(1)
+                for c2, leaf in value_cases(e_.S(v_.expr), dict(q_.conds), raw=True):
+                    models = prop_models(c2)
+                    if not models:
+                        continue
+                    ls_atoms = sorted({k for m_ in models for k in m_ if re.search(r"\.leak_status$", k)})
+                    states = {all(m_[k] for k in ls_atoms) for m_ in models} if ls_atoms else {True, False}
+                    present = any(s_.name == want_sym for s_ in leaf.free_symbols)
+                    if True in states:
+                        n_active += 1
+                        if not present:
+                            missing.append(sorted(c2.items()))
+                    if False in states and present:
+                        stale.append(sorted(c2.items()))
+        chk.expect(n_active > 0 and not missing, "R-C08-3", "%s contains the leak-rate term while the leak is active" % bn, loc(f_), found=missing[:2] or "no balance row found")
+        chk.expect(not stale, "R-C08-3", "%s has no leak-rate term while the leak is inactive" % bn, loc(f_),
+                   "without its leak_constraint row (built only for an active leak) the leak-rate variable is free; it must not enter the balance", found=stale[:2])
     consts = B.constants(repo)
     dl, sl = consts.get("leak_delta"), consts.get("leak_slope")
     chk.expect(dl is not None and dl[0] == sp.Rational(1, 10000), "R-C08-1", "leak smoothing band is 0.1 mm of pressure head", loc(B.CONSTANTS), expected="1e-4", found=str(dl[0]) if dl else None)
     chk.expect(sl is not None and 0 < sl[0] < sp.Rational(1, 1000), "R-C08-1", "leak_slope is a small positive constant", loc(B.CONSTANTS), found=str(sl))
     # breakpoint agreement
     rec = []
-    pfn, pp, pex = B.run_builder(repo, PAR, "leak_poly_coeffs_param.build", call_hook=spline_hook(rec))
+    pfn, pp, pex = run_builder_unrolled(repo, PAR, "leak_poly_coeffs_param.build", test_hook=both_entry_hook, call_hook=spline_hook(rec))
     chk.fn(pfn)
-    if len(rec) != 1:
-        raise ExtractError("leak_poly_coeffs_param: expected one cubic_spline call per node, got %d" % len(rec))
+    if not rec:
+        raise ExtractError("leak_poly_coeffs_param: no cubic_spline call")
     sub = {cs("leak_discharge_coeff"): Cd}
-    x1, x2, f1, f2, df1, df2 = [canon(pex.S(v))[0].xreplace(sub) for v in rec[0]]
     q = sp.Symbol("qq", positive=True)
     orif = Cd * A * sp.sqrt(g2 * q)
-    for nm, got, want in (("x1 = 0", x1, 0), ("x2 = delta", x2, delta), ("f1 = 0", f1, 0), ("df1 = leak_slope", df1, slope),
-                          ("f2 = Cd*A*sqrt(2g*delta)", f2, orif.subs(q, delta)), ("df2 = d/dp Cd*A*sqrt(2g p) at delta", df2, sp.diff(orif, q).subs(q, delta))):
-        chk.expect(is_zero(got - want), "R-C08-1", "leak spline data %s" % nm, loc(pfn), "the smoothing cubic must join the neighbouring branches with value and slope",
-                   expected=str(want), found=str(got))
-    p0 = pp[0]
-    params = [e for e in p0.st.events if e[0] == "call" and e[1].startswith("aml.Param(")]
-    stores = [s_ for s_ in p0.stores("m.leak_poly_coeffs_") if s_[0].endswith("[node_name]")]
-    for (t, v, ln), pe, k in zip(stores, params, "abcd"):
-        got = pe[2][1][0]
-        chk.expect(t == "m.leak_poly_coeffs_%s[node_name]" % k and isinstance(got, Opaque) and got.text == "spline0.%s" % k, "R-C08-1", "%s receives spline coefficient %s" % (t, k), loc(pfn), found=got)
+    for r_ in rec:
+        x1, x2, f1, f2, df1, df2 = [canon(pex.S(v))[0].xreplace(sub) for v in r_]
+        for nm, got, want in (("x1 = 0", x1, 0), ("x2 = delta", x2, delta), ("f1 = 0", f1, 0), ("df1 = leak_slope", df1, slope),
+                              ("f2 = Cd*A*sqrt(2g*delta)", f2, orif.subs(q, delta)), ("df2 = d/dp Cd*A*sqrt(2g p) at delta", df2, sp.diff(orif, q).subs(q, delta))):
+            chk.expect(is_zero(got - want), "R-C08-1", "leak spline data %s" % nm, loc(pfn), "the smoothing cubic must join the neighbouring branches with value and slope",
+                       expected=str(want), found=str(got))
+    # every way of writing the four coefficient entries (new Param or .value of the existing one), on every path: entry k gets coefficient k
+    n_paths = 0
+    for p_ in pp:
+        if p_.st.raised:
+            continue
+        got = entry_values(p_, r"leak_poly_coeffs_([abcd])")
+        if not got:
+            continue
+        n_paths += 1
+        keys = {key for (_, key, _, _) in got}
+        for k in "abcd":
+            vals = [(val, mode) for (k_, key, val, mode) in got if k_ == k]
+            ok_ = bool(vals) and len(keys) == 1 and all(isinstance(val, Opaque) and re.match(r"^spline\d+\.%s$" % k, val.text) for val, _ in vals)
+            chk.expect(ok_, "R-C08-1", "m.leak_poly_coeffs_%s[<node>] receives spline coefficient %s (%s)" % (k, k, "/".join(sorted({m_ for _, m_ in vals})) or "entry"), loc(pfn),
+                       found=[str(v_) for v_, _ in vals] or "not written; keys %s" % sorted(keys))
+    if not n_paths:
+        raise ExtractError("leak_poly_coeffs_param: no path writes the coefficient entries")
     B.check_updaters(chk, "R-C08-3", pfn, "leak_poly_coeffs_param", pp, {"leak_discharge_coeff", "leak_area"}, loc(pfn))
     for pname, attr in (("leak_coeff_param", "leak_discharge_coeff"), ("leak_area_param", "leak_area")):
-        f2_, pths, e2 = B.run_builder(repo, PAR, pname + ".build")
-        pr = [e for e in pths[0].st.events if e[0] == "call" and e[1].startswith("aml.Param(")]
-        val = pr[-1][2][1][0] if pr else None
-        chk.expect(isinstance(val, Opaque) and val.text.endswith("." + attr), "R-C08-3", "%s carries node.%s" % (pname, attr), loc(f2_), found=val)
+        f2_, pths, e2 = B.run_builder(repo, PAR, pname + ".build", test_hook=both_entry_hook)
+        dname = pname[:-len("_param")]
+        seen_ = set()
+        for p_ in pths:
+            if p_.st.raised:
+                continue
+            for (_, key, val, mode) in entry_values(p_, "(%s)" % dname):
+                txt = val.text if isinstance(val, Opaque) else str(val)
+                mk = re.match(r"^wn\.get_node\((.+)\)\.%s$" % attr, txt)
+                ok_ = isinstance(val, Opaque) and txt.endswith("." + attr) and (mk is None or mk.group(1) == key)
+                seen_.add(mode)
+                chk.expect(ok_, "R-C08-3", "%s carries node.%s (%s)" % (pname, attr, mode), loc(f2_), found=txt)
+        chk.expect("created" in seen_, "R-C08-3", "%s carries node.%s" % (pname, attr), loc(f2_), found=sorted(seen_))
         B.check_updaters(chk, "R-C08-3", f2_, pname, pths, {attr}, loc(f2_))
     chk.floor("R-C08-1", 3 + 2 + 2 + 6 + 4)
 
     # ---------------------------------------------------------------- R-C08-2 index domains
     defs, uses = index_domains(repo)
+    if not any(qual == "leak_constraint.build" for _, qual, _, _, _, _ in uses):
+        raise ExtractError("leak_constraint.build: index loop / default index set not understood (no model dictionary subscripted by the loop variable)")
     n_pairs = 0
     seen_pairs = set()
     for rel, qual, fn_, dname, kinds, node in uses:
@@ -382,51 +639,117 @@ def run(repo, chk):
     chk.floor("R-C08-2", 30)
 
     # ---------------------------------------------------------------- R-C08-4 window / R-C08-5 inverse pair
+    tcf = repo.func(CTRL, "Control._time_control")
+    cai_ = repo.func(CTRL, "ControlAction.__init__")
+    addf = repo.func(MODEL, "WaterNetworkModel.add_control")
+    chk.fn(tcf, addf)
+    flags = set()
     for cname in ("Junction", "Tank"):
         af = repo.func(ELEM, "%s.add_leak" % cname)
         rf = repo.func(ELEM, "%s.remove_leak" % cname)
         chk.fn(af, rf)
-        exa = SymExec()
-        outs = exa.run(af)
-        full = [o for o in outs if all(v for t, v in o.conds if "is not None" in t)]
-        if not full:
+        wanted = (("start_time", True, "_leak_start_control_name"), ("end_time", False, "_leak_end_control_name"))
+        n_full = 0
+        seen4 = set()
+        for o in UnrollExec().run(af):
+            if o.raised:
+                continue
+            models = prop_models(dict(o.conds))
+            if not models:
+                continue
+            # controls registered on this path, keyed by the name they are registered under (order and temporaries do not matter)
+            regs, dup = {}, []
+            for e in call_events(o, "add_control"):
+                ab = bind_call(addf, e)
+                nm = ab.get("name")
+                nm = nm.text if isinstance(nm, Opaque) else repr(nm)
+                if nm in regs:
+                    dup.append(nm)
+                te = event_of(o, ab.get("control_object"))
+                tb = bind_call(tcf, te) if te is not None and te[2][0].split(".")[-1] == "_time_control" else {}
+                ae = event_of(o, tb.get("control_action"))
+                cb = bind_call(cai_, ae) if ae is not None and ae[2][0].split(".")[-1] == "ControlAction" else {}
+                regs[nm] = (tb, cb, te[1] if te is not None else ab.get("control_object"))
+            given = {when: prop_forced("%s is None" % when, models) for when, _, _ in wanted}
+            # a control exists exactly when its time is given
+            for when, val, cn in wanted:
+                if given[when] is None:
+                    continue
+                key = (when, given[when], ("self." + cn) in regs)
+                if key in seen4:
+                    continue
+                seen4.add(key)
+                if given[when] is True:
+                    chk.expect(("self." + cn) not in regs, "R-C08-4", "%s.add_leak creates no %s control when %s is None" % (cname, when.split("_")[0], when), loc(af), found=sorted(regs))
+            if any(g is not False for g in given.values()):
+                continue
+            n_full += 1
+            okw = set(regs) == {"self." + cn for _, _, cn in wanted} and not dup
+            if ("both", okw, str(sorted(regs))) in seen4:
+                continue
+            seen4.add(("both", okw, str(sorted(regs))))
+            chk.expect(okw, "R-C08-4", "%s.add_leak creates a start and an end control" % cname, loc(af), found=(sorted(regs), dup))
+            for when, val, cn in wanted:
+                tb, cb, shown = regs.get("self." + cn, ({}, {}, None))
+                chk.expect(bool(tb), "R-C08-4", "%s.add_leak registers the %s control under %s" % (cname, when, cn), loc(af), found=shown if shown is not None else sorted(regs))
+                chk.expect(cb.get("target_obj") == Opaque("self") and cb.get("attribute") == "leak_status" and cb.get("value") is val, "R-C08-4",
+                           "%s.add_leak: %s control sets leak_status %s on this node" % (cname, when, val), loc(af), found=cb or shown)
+                fl = tb.get("time_flag")
+                okt = tb.get("wnm") == Opaque("wn") and tb.get("run_at_time") == Opaque(when) and isinstance(fl, str) and fl.upper() == "SIM_TIME" and tb.get("daily_flag") is False
+                chk.expect(okt, "R-C08-4", "%s.add_leak: %s control is a non-repeating simulation-time control at %s" % (cname, when, when), loc(af), found=tb or shown)
+                if isinstance(fl, str):
+                    flags.add(fl)
+        if not n_full:
             raise ExtractError("%s.add_leak: no path with both times given" % cname)
-        o = full[0]
-        tcs = [e for e in o.events if e[0] == "call" and e[1].startswith("Control._time_control(")]
-        acts = [e for e in o.events if e[0] == "call" and e[1].startswith("ControlAction(")]
-        adds = [e for e in o.events if e[0] == "call" and e[1].startswith("wn.add_control(")]
-        okw = len(tcs) == 2 and len(acts) == 2 and len(adds) == 2
-        chk.expect(okw, "R-C08-4", "%s.add_leak creates a start and an end control" % cname, loc(af), found=(len(tcs), len(acts), len(adds)))
-        if okw:
-            for i, (when, val, cn) in enumerate((("start_time", True, "_leak_start_control_name"), ("end_time", False, "_leak_end_control_name"))):
-                a_args = acts[i][2][1]
-                t_args = tcs[i][2][1]
-                chk.expect(a_args[0] == Opaque("self") and a_args[1] == "leak_status" and a_args[2] is val, "R-C08-4",
-                           "%s.add_leak: %s control sets leak_status %s on this node" % (cname, when, val), loc(af), found=a_args)
-                okt = t_args[0] == Opaque("wn") and t_args[1] == Opaque(when) and t_args[2] == "SIM_TIME" and t_args[3] is False and isinstance(t_args[4], Opaque) and t_args[4].text.startswith("ControlAction(self, 'leak_status', %s" % val)
-                chk.expect(okt, "R-C08-4", "%s.add_leak: %s control is a non-repeating simulation-time control at %s" % (cname, when, when), loc(af), found=t_args)
-                chk.expect(adds[i][2][1][0] == Opaque("self." + cn), "R-C08-4", "%s.add_leak registers the %s control under %s" % (cname, when, cn), loc(af), found=adds[i][2][1][0])
-        # remove_leak undoes everything
-        on = {a for (_, a, s_) in attr_stores(af)}
-        off = {a for (_, a, s_) in attr_stores(rf)}
-        disc = {unparse(c.args[0]) for c in calls(rf) if call_name(c) in ("wn._discard_control", "wn.remove_control") and c.args}
-        chk.expect("_leak" in off, "R-C08-5", "%s.remove_leak clears the leak flag" % cname, loc(rf), found=sorted(off))
-        chk.expect({"self._leak_start_control_name", "self._leak_end_control_name"} <= disc, "R-C08-5", "%s.remove_leak discards both leak controls" % cname, loc(rf), found=sorted(disc))
-        # the switch the simulator reads: ControlAction maps 'leak_status' -> '_leak_status'; removing the controls must also switch it off
-        chk.expect("_leak_status" in off, "R-C08-5", "%s.remove_leak switches the run-time leak status off" % cname, loc(rf),
-                   "the start control sets _leak_status True; after remove_leak nothing would ever clear it and the constraint builders keep the leak term (leak keeps discharging)",
-                   expected="self._leak_status = False", found=sorted(off))
-    tcf = repo.func(CTRL, "Control._time_control")
-    chk.fn(tcf)
-    ext = SymExec()
-    for o in ext.run(tcf):
-        if o.raised or o.ret is None:
-            continue
-        if any("'SIM_TIME'" in t and v for t, v in o.conds):
-            cc = [e for e in o.events if e[0] == "call" and e[1].startswith("SimTimeCondition(")]
-            okc = len(cc) == 1 and cc[0][2][2].get("threshold") == Opaque("run_at_time") and cc[0][2][2].get("repeat") == Opaque("daily_flag") \
-                and isinstance(cc[0][2][2].get("relation"), Opaque) and cc[0][2][2]["relation"].text == "Comparison.eq"
-            chk.expect(okc, "R-C08-4", "Control._time_control(SIM_TIME) builds SimTimeCondition(eq, run_at_time, repeat=daily_flag)", loc(tcf), found=cc[0][1] if cc else None)
+        # remove_leak undoes everything: on every path the LAST value stored to the flags is False and both controls are discarded
+        n_rm = 0
+        seen5 = set()
+        for o in UnrollExec().run(rf):
+            if o.raised:
+                continue
+            n_rm += 1
+            last = {}
+            for e in o.events:
+                if e[0] == "store" and e[1].startswith("self."):
+                    last[e[1]] = e[2]
+            disc = set()
+            for e in o.events:
+                if e[0] == "call" and e[2][0].split(".")[-1] in ("_discard_control", "remove_control") and e[2][0].split(".")[0] == "wn":
+                    arg = (e[2][1] or [e[2][2].get("name")])[0]
+                    disc.add(arg.text if isinstance(arg, Opaque) else repr(arg))
+            sig = (str(sorted((k, str(v)) for k, v in last.items())), str(sorted(disc)))
+            if sig in seen5:
+                continue
+            seen5.add(sig)
+            shown = {k: str(v) for k, v in sorted(last.items())}
+            chk.expect(last.get("self._leak") is False, "R-C08-5", "%s.remove_leak clears the leak flag" % cname, loc(rf), found=shown)
+            chk.expect({"self._leak_start_control_name", "self._leak_end_control_name"} <= disc, "R-C08-5", "%s.remove_leak discards both leak controls" % cname, loc(rf), found=sorted(disc))
+            # the switch the simulator reads: ControlAction maps 'leak_status' -> '_leak_status'; removing the controls must also switch it off
+            chk.expect(last.get("self._leak_status") is False, "R-C08-5", "%s.remove_leak switches the run-time leak status off" % cname, loc(rf),
+                       "the start control sets _leak_status True; after remove_leak nothing would ever clear it and the constraint builders keep the leak term (leak keeps discharging)",
+                       expected="self._leak_status = False", found=shown)
+        if not n_rm:
+            raise ExtractError("%s.remove_leak: no path returns" % cname)
+    # the control factory, evaluated for the flag add_leak passes: the condition is `simulation time == run_at_time`, repeating only on request
+    stc = repo.func(CTRL, "SimTimeCondition.__init__")
+    cti = repo.func(CTRL, "Control.__init__")
+    for fl in sorted(flags) or ["SIM_TIME"]:
+        n_tc = 0
+        for o in SymExec(call_hook=str_method_hook).run(tcf, env={"time_flag": fl}):
+            if o.raised:
+                continue
+            n_tc += 1
+            ce = event_of(o, o.ret)
+            cb = bind_call(cti, ce) if ce is not None and ce[2][0].split(".")[-1] in ("Control", "cls") else {}
+            se = event_of(o, cb.get("condition"))
+            sb = bind_call(stc, se) if se is not None and se[2][0].split(".")[-1] == "SimTimeCondition" else {}
+            rel = sb.get("relation")
+            okc = sb.get("threshold") == Opaque("run_at_time") and sb.get("repeat") == Opaque("daily_flag") and sb.get("model") == Opaque("wnm") \
+                and isinstance(rel, Opaque) and rel.text == "Comparison.eq" and cb.get("then_action") == Opaque("control_action")
+            chk.expect(okc, "R-C08-4", "Control._time_control(SIM_TIME) builds SimTimeCondition(eq, run_at_time, repeat=daily_flag)", loc(tcf),
+                       "evaluated with time_flag=%r" % fl, found=(ce[1] if ce is not None else o.ret))
+        if not n_tc:
+            chk.bad("R-C08-4", "Control._time_control(SIM_TIME) builds SimTimeCondition(eq, run_at_time, repeat=daily_flag)", loc(tcf), "raises for time_flag=%r" % fl)
     from ._shared import control_type_table
     table_, default_, ci, init_ok = control_type_table(repo)
     tkey = [k for k in table_ if "SimTimeCondition" in k]
@@ -540,4 +863,39 @@ WITNESSES = [
     dict(name="private-attribute-leak-status-unmapped", file=CTRL,
          old="        elif attribute == 'leak_status':\n            self._private_attribute = '_leak_status'\n", new="", rule="R-C08-4"),
     dict(name="leak-status-getter-reads-static-flag", file=BASE, old="        return self._leak_status\n", new="        return self._leak\n", rule="R-C08-4"),
+    # ---- further shapes of the same facts (found by trying rewrites of every anchored function) and wrong twins that must fire
+    dict(name='leak-row-head-by-conditional-expression-preserving', file=CON, old='            if node.leak_status and not node._is_isolated:\n                leak_rate = m.leak_rate[node_name]\n                if isinstance(node, wntr.network.Junction):\n                    h = m.head[node_name]\n                    elev = m.elevation[node_name]\n                else:\n                    h = m.source_head[node_name]\n                    elev = node.elevation\n', new='            if node.leak_status and not node._is_isolated:\n                leak_rate = m.leak_rate[node_name]\n                is_junction = isinstance(node, wntr.network.Junction)\n                h = m.head[node_name] if is_junction else m.source_head[node_name]\n                elev = m.elevation[node_name] if is_junction else node.elevation\n', silent=True),
+    dict(name='leak-row-guard-compares-with-false-preserving', file=CON, old='            if node.leak_status and not node._is_isolated:\n                leak_rate = m.leak_rate[node_name]\n', new='            if node.leak_status and node._is_isolated == False:\n                leak_rate = m.leak_rate[node_name]\n', silent=True),
+    dict(name='leak-row-guard-de-morgan-preserving', file=CON, old='            if node.leak_status and not node._is_isolated:\n                leak_rate = m.leak_rate[node_name]\n', new='            if not (node._is_isolated or not node.leak_status):\n                leak_rate = m.leak_rate[node_name]\n', silent=True),
+    dict(name='leak-law-pressure-hoisted-horner-preserving', file=CON, old='                con = aml.ConditionalExpression()\n                con.add_condition(aml.inequality(h, ub=elev), leak_rate - slope*(h-elev))\n                con.add_condition(aml.inequality(h - elev, ub=delta), leak_rate - (a*(h-elev)**3 + b*(h-elev)**2 + c*(h-elev) + d))\n                con.add_final_expr(leak_rate - Cd*area*(2.0*9.81*(h-elev))**0.5)\n', new='                p = h - elev\n                con = aml.ConditionalExpression()\n                con.add_condition(aml.inequality(p, ub=0), leak_rate - slope*p)\n                con.add_condition(aml.inequality(p, ub=delta), leak_rate - (((a*p + b)*p + c)*p + d))\n                con.add_final_expr(leak_rate - Cd*area*(2.0*9.81*p)**0.5)\n', silent=True),
+    dict(name='leak-branch-guard-lower-bound-form-preserving', file=CON, old='con.add_condition(aml.inequality(h, ub=elev), leak_rate - slope*(h-elev))', new='con.add_condition(aml.inequality(elev - h, lb=0), leak_rate - slope*(h-elev))', silent=True),
+    dict(name='leak-row-updaters-in-a-loop-preserving', file=CON, old="            updater.add(node, 'leak_status', leak_constraint.update)\n            updater.add(node, '_is_isolated', leak_constraint.update)\n\n\ndef plot_constraint", new="            for attr in ('leak_status', '_is_isolated'):\n                updater.add(node, attr, leak_constraint.update)\n\n\ndef plot_constraint", silent=True),
+    dict(name='leak-row-updaters-through-cls-preserving', file=CON, old="            updater.add(node, 'leak_status', leak_constraint.update)\n            updater.add(node, '_is_isolated', leak_constraint.update)\n\n\ndef plot_constraint", new="            updater.add(node, 'leak_status', cls.update)\n            updater.add(node, '_is_isolated', cls.update)\n\n\ndef plot_constraint", silent=True),
+    dict(name='leak-row-default-index-conditional-expression-preserving', file=CON, old='        if index_over is None:\n            index_over = wn.junction_name_list + wn.tank_name_list\n\n        for node_name in index_over:\n            if node_name in m.leak_con:', new='        names = wn.junction_name_list + wn.tank_name_list if index_over is None else index_over\n\n        for node_name in names:\n            if node_name in m.leak_con:', silent=True),
+    dict(name='add-leak-nested-calls-preserving', file=ELEM, old='        if start_time is not None:\n            start_control_action = ControlAction(self, \'leak_status\', True)\n            control = Control._time_control(wn, start_time, \'SIM_TIME\', False, start_control_action)\n            wn.add_control(self._leak_start_control_name, control)\n\n        if end_time is not None:\n            end_control_action = ControlAction(self, \'leak_status\', False)\n            control = Control._time_control(wn, end_time, \'SIM_TIME\', False, end_control_action)\n            wn.add_control(self._leak_end_control_name, control)\n\n    def remove_leak(self,wn):\n        """\n        Remove a leak control', new='        if start_time is not None:\n            wn.add_control(self._leak_start_control_name, Control._time_control(wn, start_time, \'SIM_TIME\', False, ControlAction(self, \'leak_status\', True)))\n\n        if end_time is not None:\n            wn.add_control(self._leak_end_control_name, Control._time_control(wn, end_time, \'SIM_TIME\', False, ControlAction(self, \'leak_status\', False)))\n\n    def remove_leak(self,wn):\n        """\n        Remove a leak control', silent=True),
+    dict(name='add-leak-keyword-arguments-preserving', file=ELEM, old='        if start_time is not None:\n            start_control_action = ControlAction(self, \'leak_status\', True)\n            control = Control._time_control(wn, start_time, \'SIM_TIME\', False, start_control_action)\n            wn.add_control(self._leak_start_control_name, control)\n\n        if end_time is not None:\n            end_control_action = ControlAction(self, \'leak_status\', False)\n            control = Control._time_control(wn, end_time, \'SIM_TIME\', False, end_control_action)\n            wn.add_control(self._leak_end_control_name, control)\n\n    def remove_leak(self,wn):\n        """\n        Remove a leak control', new='        if start_time is not None:\n            act = ControlAction(target_obj=self, attribute=\'leak_status\', value=True)\n            control = Control._time_control(wn, start_time, \'SIM_TIME\', daily_flag=False, control_action=act)\n            wn.add_control(self._leak_start_control_name, control)\n\n        if end_time is not None:\n            act = ControlAction(self, \'leak_status\', value=False)\n            control = Control._time_control(wnm=wn, run_at_time=end_time, time_flag=\'SIM_TIME\', daily_flag=False, control_action=act)\n            wn.add_control(name=self._leak_end_control_name, control_object=control)\n\n    def remove_leak(self,wn):\n        """\n        Remove a leak control', silent=True),
+    dict(name='add-leak-merged-loop-preserving', file=ELEM, old='        if start_time is not None:\n            start_control_action = ControlAction(self, \'leak_status\', True)\n            control = Control._time_control(wn, start_time, \'SIM_TIME\', False, start_control_action)\n            wn.add_control(self._leak_start_control_name, control)\n\n        if end_time is not None:\n            end_control_action = ControlAction(self, \'leak_status\', False)\n            control = Control._time_control(wn, end_time, \'SIM_TIME\', False, end_control_action)\n            wn.add_control(self._leak_end_control_name, control)\n\n    def remove_leak(self,wn):\n        """\n        Remove a leak control', new='        for when, status, control_name in ((start_time, True, self._leak_start_control_name), (end_time, False, self._leak_end_control_name)):\n            if when is None:\n                continue\n            action = ControlAction(self, \'leak_status\', status)\n            wn.add_control(control_name, Control._time_control(wn, when, \'SIM_TIME\', False, action))\n\n    def remove_leak(self,wn):\n        """\n        Remove a leak control', silent=True),
+    dict(name='remove-leak-loop-and-chained-assignment-preserving', file=ELEM, old='        self._leak = False\n        self._leak_status = False\n        wn._discard_control(self._leak_start_control_name)\n        wn._discard_control(self._leak_end_control_name)\n        \n    def add_fire_fighting_demand', new='        self._leak = self._leak_status = False\n        for control_name in (self._leak_start_control_name, self._leak_end_control_name):\n            wn._discard_control(control_name)\n        \n    def add_fire_fighting_demand', silent=True),
+    dict(name='remove-leak-leaves-status-on', file=ELEM, old='        self._leak = False\n        self._leak_status = False\n        wn._discard_control(self._leak_start_control_name)\n        wn._discard_control(self._leak_end_control_name)\n        \n    def add_fire_fighting_demand', new='        self._leak = False\n        self._leak_status = True\n        wn._discard_control(self._leak_start_control_name)\n        wn._discard_control(self._leak_end_control_name)\n        \n    def add_fire_fighting_demand', rule='R-C08-5'),
+    dict(name='time-control-early-returns-positional-preserving', file=CTRL, old='        if time_flag.upper() == \'SIM_TIME\':\n            condition = SimTimeCondition(model=wnm, relation=Comparison.eq, threshold=run_at_time, repeat=daily_flag,\n                                         first_time=0)\n        elif time_flag.upper() == \'CLOCK_TIME\':\n            condition = TimeOfDayCondition(model=wnm, relation=Comparison.eq, threshold=run_at_time, repeat=daily_flag,\n                                           first_day=0)\n        else:\n            raise ValueError("time_flag not recognized; expected either \'sim_time\' or \'clock_time\'")\n\n        control = Control(condition=condition, then_action=control_action)\n\n        return control\n', new='        flag = time_flag.upper()\n        if flag == \'SIM_TIME\':\n            return Control(SimTimeCondition(wnm, Comparison.eq, run_at_time, repeat=daily_flag, first_time=0), control_action)\n        if flag == \'CLOCK_TIME\':\n            return Control(TimeOfDayCondition(wnm, Comparison.eq, run_at_time, repeat=daily_flag, first_day=0), control_action)\n        raise ValueError("time_flag not recognized; expected either \'sim_time\' or \'clock_time\'")\n', silent=True),
+    dict(name='time-control-validation-first-preserving', file=CTRL, old='        if time_flag.upper() == \'SIM_TIME\':\n            condition = SimTimeCondition(model=wnm, relation=Comparison.eq, threshold=run_at_time, repeat=daily_flag,\n                                         first_time=0)\n        elif time_flag.upper() == \'CLOCK_TIME\':\n            condition = TimeOfDayCondition(model=wnm, relation=Comparison.eq, threshold=run_at_time, repeat=daily_flag,\n                                           first_day=0)\n        else:\n            raise ValueError("time_flag not recognized; expected either \'sim_time\' or \'clock_time\'")\n\n        control = Control(condition=condition, then_action=control_action)\n\n        return control\n', new='        flag = time_flag.upper()\n        if flag not in (\'SIM_TIME\', \'CLOCK_TIME\'):\n            raise ValueError("time_flag not recognized; expected either \'sim_time\' or \'clock_time\'")\n        if flag == \'CLOCK_TIME\':\n            condition = TimeOfDayCondition(model=wnm, relation=Comparison.eq, threshold=run_at_time, repeat=daily_flag, first_day=0)\n        else:\n            condition = SimTimeCondition(model=wnm, relation=Comparison.eq, threshold=run_at_time, repeat=daily_flag, first_time=0)\n        return Control(condition=condition, then_action=control_action)\n', silent=True),
+    dict(name='time-control-at-or-after', file=CTRL, old="condition = SimTimeCondition(model=wnm, relation=Comparison.eq, threshold=run_at_time, repeat=daily_flag,\n                                         first_time=0)\n        elif time_flag.upper() == 'CLOCK_TIME':", new="condition = SimTimeCondition(model=wnm, relation=Comparison.ge, threshold=run_at_time, repeat=daily_flag,\n                                         first_time=0)\n        elif time_flag.upper() == 'CLOCK_TIME':", rule='R-C08-4'),
+    dict(name='mass-balance-leak-term-conditional-expression-preserving', file=CON, old='                if node.leak_status:\n                    expr += m.leak_rate[node_name]\n                m.mass_balance[node_name] = aml.Constraint(expr)\n', new='                leak = m.leak_rate[node_name] if node.leak_status else 0\n                m.mass_balance[node_name] = aml.Constraint(expr + leak)\n', silent=True),
+    dict(name='mass-balance-leak-term-unconditional', file=CON, old='                if node.leak_status:\n                    expr += m.leak_rate[node_name]\n                m.mass_balance[node_name] = aml.Constraint(expr)\n', new='                expr += m.leak_rate[node_name]\n                m.mass_balance[node_name] = aml.Constraint(expr)\n', rule='R-C08-3'),
+    dict(name='mass-balance-leak-term-inverted', file=CON, old='                if node.leak_status:\n                    expr += m.leak_rate[node_name]\n                m.mass_balance[node_name] = aml.Constraint(expr)\n', new='                if not node.leak_status:\n                    expr += m.leak_rate[node_name]\n                m.mass_balance[node_name] = aml.Constraint(expr)\n', rule='R-C08-3'),
+    dict(name='mass-balance-renamed-locals-preserving', file=CON, old="        for node_name in index_over:\n            if node_name in m.mass_balance:\n                del m.mass_balance[node_name]\n\n            node = wn.get_node(node_name)\n            if not node._is_isolated:\n                expr = m.expected_demand[node_name]\n                for link_name in wn.get_links_for_node(node_name, flag='INLET'):\n                    expr -= m.flow[link_name]\n                for link_name in wn.get_links_for_node(node_name, flag='OUTLET'):\n                    expr += m.flow[link_name]\n                if node.leak_status:\n                    expr += m.leak_rate[node_name]\n                m.mass_balance[node_name] = aml.Constraint(expr)\n\n            updater.add(node, 'leak_status', mass_balance_constraint.update)\n            updater.add(node, '_is_isolated', mass_balance_constraint.update)\n", new="        for jname in index_over:\n            if jname in m.mass_balance:\n                del m.mass_balance[jname]\n\n            junction = wn.get_node(jname)\n            if not junction._is_isolated:\n                expr = m.expected_demand[jname]\n                for link_name in wn.get_links_for_node(jname, flag='INLET'):\n                    expr -= m.flow[link_name]\n                for link_name in wn.get_links_for_node(jname, flag='OUTLET'):\n                    expr += m.flow[link_name]\n                if junction.leak_status:\n                    expr += m.leak_rate[jname]\n                m.mass_balance[jname] = aml.Constraint(expr)\n\n            updater.add(junction, 'leak_status', mass_balance_constraint.update)\n            updater.add(junction, '_is_isolated', mass_balance_constraint.update)\n", silent=True),
+    dict(name='leak-spline-renamed-hoisted-reordered-preserving', file=PAR, old="        for node_name in index_over:\n            node = wn.get_node(node_name)\n            x1 = 0.0\n            f1 = 0.0\n            x2 = x1 + m.leak_delta\n            f2 = node.leak_discharge_coeff*node.leak_area*(2.0*9.81*x2)**0.5\n            df1 = m.leak_slope\n            df2 = 0.5*node.leak_discharge_coeff*node.leak_area*(2.0*9.81)**0.5*x2**(-0.5)\n            a, b, c, d = cubic_spline(x1, x2, f1, f2, df1, df2)\n            if node_name in m.leak_poly_coeffs_a:\n                m.leak_poly_coeffs_a[node_name].value = a\n                m.leak_poly_coeffs_b[node_name].value = b\n                m.leak_poly_coeffs_c[node_name].value = c\n                m.leak_poly_coeffs_d[node_name].value = d\n            else:\n                m.leak_poly_coeffs_a[node_name] = aml.Param(a)\n                m.leak_poly_coeffs_b[node_name] = aml.Param(b)\n                m.leak_poly_coeffs_c[node_name] = aml.Param(c)\n                m.leak_poly_coeffs_d[node_name] = aml.Param(d)\n\n            updater.add(node, 'leak_discharge_coeff', leak_poly_coeffs_param.update)\n            updater.add(node, 'leak_area', leak_poly_coeffs_param.update)\n", new="        for name in index_over:\n            leaky = wn.get_node(name)\n            cd_area = leaky.leak_discharge_coeff*leaky.leak_area\n            delta = m.leak_delta\n            coeffs = cubic_spline(0.0, delta, 0.0, cd_area*math.sqrt(2.0*9.81*delta), m.leak_slope, 0.5*cd_area*(2.0*9.81)**0.5/delta**0.5)\n            a, b, c, d = coeffs\n            if name not in m.leak_poly_coeffs_a:\n                m.leak_poly_coeffs_d[name] = aml.Param(d)\n                m.leak_poly_coeffs_c[name] = aml.Param(c)\n                m.leak_poly_coeffs_b[name] = aml.Param(b)\n                m.leak_poly_coeffs_a[name] = aml.Param(a)\n            else:\n                m.leak_poly_coeffs_a[name].value = a\n                m.leak_poly_coeffs_b[name].value = b\n                m.leak_poly_coeffs_c[name].value = c\n                m.leak_poly_coeffs_d[name].value = d\n\n            updater.add(leaky, 'leak_area', leak_poly_coeffs_param.update)\n            updater.add(leaky, 'leak_discharge_coeff', leak_poly_coeffs_param.update)\n", silent=True),
+    dict(name='leak-spline-update-branch-swaps-coefficients', file=PAR, old='                m.leak_poly_coeffs_a[node_name].value = a\n                m.leak_poly_coeffs_b[node_name].value = b\n', new='                m.leak_poly_coeffs_a[node_name].value = b\n                m.leak_poly_coeffs_b[node_name].value = a\n', rule='R-C08-1'),
+    dict(name='leak-coeff-param-renamed-hoisted-preserving', file=PAR, old="        for node_name in index_over:\n            node = wn.get_node(node_name)\n            if node_name in m.leak_coeff:\n                m.leak_coeff[node_name].value = node.leak_discharge_coeff\n            else:\n                m.leak_coeff[node_name] = aml.Param(node.leak_discharge_coeff)\n\n            updater.add(node, 'leak_discharge_coeff', leak_coeff_param.update)\n", new="        for name in index_over:\n            leaky = wn.get_node(name)\n            cd = leaky.leak_discharge_coeff\n            if name in m.leak_coeff:\n                m.leak_coeff[name].value = cd\n            else:\n                m.leak_coeff[name] = aml.Param(cd)\n\n            updater.add(leaky, 'leak_discharge_coeff', leak_coeff_param.update)\n", silent=True),
+    dict(name='leak-row-default-index-includes-reservoirs', file=CON, old='        if index_over is None:\n            index_over = wn.junction_name_list + wn.tank_name_list\n\n        for node_name in index_over:\n            if node_name in m.leak_con:', new='        names = wn.node_name_list if index_over is None else index_over\n\n        for node_name in names:\n            if node_name in m.leak_con:', rule='R-C08-2'),
+    dict(name='leak-row-head-by-conditional-expression-swapped', file=CON, old='                if isinstance(node, wntr.network.Junction):\n                    h = m.head[node_name]\n                    elev = m.elevation[node_name]\n                else:\n                    h = m.source_head[node_name]\n                    elev = node.elevation\n', new='                is_tank = not isinstance(node, wntr.network.Junction)\n                h = m.head[node_name] if is_tank else m.source_head[node_name]\n                elev = node.elevation if is_tank else m.elevation[node_name]\n', rule='R-C08-2'),
+    dict(name='leak-row-head-by-negated-temporary-preserving', file=CON, old='                if isinstance(node, wntr.network.Junction):\n                    h = m.head[node_name]\n                    elev = m.elevation[node_name]\n                else:\n                    h = m.source_head[node_name]\n                    elev = node.elevation\n', new='                is_tank = not isinstance(node, wntr.network.Junction)\n                h = m.source_head[node_name] if is_tank else m.head[node_name]\n                elev = node.elevation if is_tank else m.elevation[node_name]\n', silent=True),
+    dict(name='leak-row-guard-drops-isolation', file=CON, old='            if node.leak_status and not node._is_isolated:\n                leak_rate = m.leak_rate[node_name]\n', new='            if node.leak_status:\n                leak_rate = m.leak_rate[node_name]\n', rule='R-C08-1'),
+    dict(name='leak-row-guard-or-instead-of-and', file=CON, old='            if node.leak_status and not node._is_isolated:\n                leak_rate = m.leak_rate[node_name]\n', new='            if node.leak_status or not node._is_isolated:\n                leak_rate = m.leak_rate[node_name]\n', rule='R-C08-1'),
+    dict(name='leak-branch-guard-lower-bound-form-reversed', file=CON, old='con.add_condition(aml.inequality(h, ub=elev), leak_rate - slope*(h-elev))', new='con.add_condition(aml.inequality(h - elev, lb=0), leak_rate - slope*(h-elev))', rule='R-C08-1'),
+    dict(name='junction-results-early-continue-renamed-preserving', file=HYD, old="    for name, node in wn.junctions():\n        if node._is_isolated:\n            # zero pressure: the head of a cut-off junction is its elevation (a head of 0 would be read as a\n            # real head by the status rules of check valves, pumps and tanks when the network lies below datum 0)\n            node._head = node.elevation\n            node._demand = 0\n            node._pressure = 0\n            node._leak_demand = 0\n        else:\n            node._head = m.head[name].value\n            node._pressure = m.head[name].value - node.elevation\n            if mode in ['PDD', 'PDA']:\n                node._demand = m.demand[name].value\n            else:\n                node._demand = m.expected_demand[name].value\n            if node.leak_status:\n                node._leak_demand = m.leak_rate[name].value\n            else:\n                node._leak_demand = 0\n", new="    for jname, junction in wn.junctions():\n        junction._leak_demand = 0\n        if junction._is_isolated:\n            junction._head = junction.elevation\n            junction._demand = 0\n            junction._pressure = 0\n            continue\n        head = m.head[jname].value\n        junction._head = head\n        junction._pressure = head - junction.elevation\n        demand_var = m.demand if mode in ['PDD', 'PDA'] else m.expected_demand\n        junction._demand = demand_var[jname].value\n        leak_var = m.leak_rate[jname]\n        if junction.leak_status:\n            junction._leak_demand = leak_var.value\n", silent=True),
+    dict(name='junction-results-early-continue-keeps-stale-leak', file=HYD, old="    for name, node in wn.junctions():\n        if node._is_isolated:\n            # zero pressure: the head of a cut-off junction is its elevation (a head of 0 would be read as a\n            # real head by the status rules of check valves, pumps and tanks when the network lies below datum 0)\n            node._head = node.elevation\n            node._demand = 0\n            node._pressure = 0\n            node._leak_demand = 0\n        else:\n            node._head = m.head[name].value\n            node._pressure = m.head[name].value - node.elevation\n            if mode in ['PDD', 'PDA']:\n                node._demand = m.demand[name].value\n            else:\n                node._demand = m.expected_demand[name].value\n            if node.leak_status:\n                node._leak_demand = m.leak_rate[name].value\n            else:\n                node._leak_demand = 0\n", new="    for jname, junction in wn.junctions():\n        if junction.leak_status:\n            junction._leak_demand = m.leak_rate[jname].value\n        else:\n            junction._leak_demand = 0\n        if junction._is_isolated:\n            junction._head = junction.elevation\n            junction._demand = 0\n            junction._pressure = 0\n            continue\n        head = m.head[jname].value\n        junction._head = head\n        junction._pressure = head - junction.elevation\n        demand_var = m.demand if mode in ['PDD', 'PDA'] else m.expected_demand\n        junction._demand = demand_var[jname].value\n", rule='R-C08-6'),
+    dict(name='junction-leak-demand-in-second-loop-preserving', file=HYD, old='            if node.leak_status:\n                node._leak_demand = m.leak_rate[name].value\n            else:\n                node._leak_demand = 0\n\n    for name, node in wn.tanks():\n', new='\n    for name, node in wn.junctions():\n        node._leak_demand = m.leak_rate[name].value if (node.leak_status and not node._is_isolated) else 0\n\n    for name, node in wn.tanks():\n', silent=True),
+    dict(name='leak-spline-entries-zip-loop-preserving', file=PAR, old='            if node_name in m.leak_poly_coeffs_a:\n                m.leak_poly_coeffs_a[node_name].value = a\n                m.leak_poly_coeffs_b[node_name].value = b\n                m.leak_poly_coeffs_c[node_name].value = c\n                m.leak_poly_coeffs_d[node_name].value = d\n            else:\n                m.leak_poly_coeffs_a[node_name] = aml.Param(a)\n                m.leak_poly_coeffs_b[node_name] = aml.Param(b)\n                m.leak_poly_coeffs_c[node_name] = aml.Param(c)\n                m.leak_poly_coeffs_d[node_name] = aml.Param(d)\n', new='            already_defined = node_name in m.leak_poly_coeffs_a\n            for coeff_dict, coeff in zip((m.leak_poly_coeffs_a, m.leak_poly_coeffs_b, m.leak_poly_coeffs_c, m.leak_poly_coeffs_d), (a, b, c, d)):\n                if already_defined:\n                    coeff_dict[node_name].value = coeff\n                else:\n                    coeff_dict[node_name] = aml.Param(coeff)\n', silent=True),
+    dict(name='leak-spline-entries-zip-loop-misaligned', file=PAR, old='            if node_name in m.leak_poly_coeffs_a:\n                m.leak_poly_coeffs_a[node_name].value = a\n                m.leak_poly_coeffs_b[node_name].value = b\n                m.leak_poly_coeffs_c[node_name].value = c\n                m.leak_poly_coeffs_d[node_name].value = d\n            else:\n                m.leak_poly_coeffs_a[node_name] = aml.Param(a)\n                m.leak_poly_coeffs_b[node_name] = aml.Param(b)\n                m.leak_poly_coeffs_c[node_name] = aml.Param(c)\n                m.leak_poly_coeffs_d[node_name] = aml.Param(d)\n', new='            already_defined = node_name in m.leak_poly_coeffs_a\n            for coeff_dict, coeff in zip((m.leak_poly_coeffs_a, m.leak_poly_coeffs_b, m.leak_poly_coeffs_c, m.leak_poly_coeffs_d), (a, b, d, c)):\n                if already_defined:\n                    coeff_dict[node_name].value = coeff\n                else:\n                    coeff_dict[node_name] = aml.Param(coeff)\n', rule='R-C08-1'),
 ]
